@@ -1056,15 +1056,24 @@ def _replay_and_judge(rep, d, fpath, cases, seed, pool, label="replay"):
         ent = leaks[lk]
         ent["defects"], ent["entries"] = sorted(ent["defects"]), sorted(ent["entries"])
         summary.append(ent)
+    # one violation per LEAK SITE: (violated clause, leaked class, innermost beartype call site).  The
+    # fine-grained (defect, position, entry point) combinations reaching that site are listed in the
+    # replay case and in evidence coverage.leak_classes.
+    by_site = {}
     for k in sorted(verdicts):
         key = json.loads(k)
         case, e, row = verdicts[k][0]
-        variants = sorted({c["var"] for c, _e, _r in verdicts[k]})
-        rep.violation(key,
-                      f"{key['entry']} ({row['phase']} phase), defect {key['defect']} {variants} at position "
-                      f"{key['pos']}, raise point {case['rp']}: {_clause_what(key['clause'])}: {key['leak']} "
-                      f"[{e.get('msg', '')[:160]}] from {e.get('site', '?')}; hint {_hint_of(case, results)}",
-                      {"cases": [c for c, _e, _r in verdicts[k]][:6], "seed": seed, "event": e})
+        by_site.setdefault((key["clause"], key["leak"], e.get("site", "")), []).append((key, case, e, row, k))
+    for (cl, leak, site), items in sorted(by_site.items()):
+        key0, case, e, row, _k = items[0]
+        combos = sorted({f"{k_['entry']}/{k_['defect']}@{k_['pos']}" for k_, _c, _e, _r, _kk in items})
+        rep.violation({"clause": cl, "leak": leak, "site": site},
+                      f"{_clause_what(cl)}: {leak} [{e.get('msg', '')[:160]}] from {site or '?'}; e.g. "
+                      f"{key0['entry']} ({row['phase']} phase), defect {key0['defect']} at position {key0['pos']}, "
+                      f"hint {_hint_of(case, results)[:120]}; {len(items)} (defect, position, entry) combinations: "
+                      f"{combos[:8]}",
+                      {"cases": [c for _k2, c, _e, _r, _kk in items][:6], "seed": seed, "event": e,
+                       "combinations": combos[:60]})
     # cases the intended automaton cannot follow although nothing in them breaks the property: drift
     bad_ids = {index[row["at"]][0]["id"] for row in judged}
     for c, evs in results:
